@@ -9,6 +9,7 @@ jump conditions are evaluated in the textbook form (x_c02_jumps.jump_residuals).
 own `jumps` report or from its wave-speed formulas.
 """
 import math
+import os
 
 import numpy as np
 
@@ -49,13 +50,11 @@ ASSUMPTIONS = [
 ]
 
 # family -> (K quick, K thorough, one task per time?)
-FAMILIES = {
+FAMILIES = {      # heavy families first (load balance); inside a family the enumeration is simplest-first
+    "Guderley": (1, 2, True), "GenEOS": (1, 2, True), "GenEOS_table": (2, 2, True), "Sedov": (1, 2, True), "RMTV": (1, 2, False),
+    "BBNoh": (4, 4, False), "IGEOS": (1, 2, False), "IGEOS_table": (2, 2, False),
     "Noh": (1, 2, False), "Cog19": (1, 2, False), "Cog20": (1, 2, False), "Cog21": (1, 2, False),
-    "BBNoh": (4, 4, False),
-    "IGEOS": (1, 2, False), "IGEOS_table": (2, 2, False),
-    "GenEOS": (1, 2, True), "GenEOS_table": (2, 2, True),
     "EPpiston": (1, 2, False), "EHEP": (1, 2, False), "SDRZ": (1, 2, False), "Mader": (1, 2, False),
-    "Sedov": (1, 2, True), "Guderley": (1, 2, True), "RMTV": (1, 2, False),
 }
 
 # Tolerances: >= 10 x the worst residual of the unchanged code over the thorough lattice (measured value in the comment).
@@ -64,27 +63,31 @@ TOL = {
     "Cog19": 1e-9,         # measured 1.2e-13
     "Cog20": 1e-9,         # (every case violates: finding cog20-shock-location) planar states alone: 1e-16
     "Cog21": 1e-8,         # measured 5.3e-13 (4th-order difference of r ~ t^-2)
-    "BBNoh": 1e-7,         # measured below (Newton tolerance 1e-10)
+    "BBNoh": 1e-7,         # Newton tolerance 1e-10; measured 2.2e-15 (default state), 2.2e-15 (reduced oracle)
     "IGEOS": 1e-8, "IGEOS_table": 1e-8,     # measured 1.1e-10 (position noise 1e-13 / dt)
-    "GenEOS": 3e-3, "GenEOS_table": 3e-3,   # class C: p-u curves tabulated at 501 points; measured 2.3e-4
+    "GenEOS": 5e-2, "GenEOS_table": 5e-2,   # class C: p-u curves tabulated at 501 points and interpolated linearly; measured 6.0e-3 (LeBlanc:
+                                            # the star pressure lies inside the first interval of the shock table), 1.6e-3 otherwise
     "EPpiston": 1e-9,      # measured 3.2e-15
     "EHEP": 1e-5,          # region assignment has a 1e-6 wide noisy band (see x_c02_families.EHEPA); measured 1.1e-7
     "SDRZ": 1e-9,          # front; measured 8.7e-14.  reaction zone: SDRZ_ZONE_TOL
-    "Mader": 1e-8,         # front state extrapolated from cell means; measured below
-    "Sedov": 1e-4,         # fminbound on (lambda - lambda_want)^2 resolves v to ~1e-8: measured 2.2e-6
-    "Guderley": 1e-5,      # reduced oracle (Lazarus time); measured below
+    "Mader": 1e-8,         # front state extrapolated from cell means of width 1e-6 D t; measured 6.6e-11
+    "Sedov": 1e-4,         # fminbound on (lambda - lambda_want)^2 resolves v to ~1e-8: measured 2.2e-6 (k=2, gamma=1.2, vacuum type)
+    "Guderley": 1e-7,      # reduced oracle (Lazarus time), 4th-order difference at dt/t = 1e-3; measured 1.3e-10
     "RMTV": 1e-8,          # measured 1.8e-13
 }
 SDRZ_ZONE_TOL = 3e-4       # linear interpolation in a 201-point table: measured 1.2e-5
 # a discontinuity is a contact when no mass crosses it: |u - s| <= CTOL x velocity scale on both sides
-CTOL = {"GenEOS": 3e-3, "GenEOS_table": 3e-3, "EHEP": 1e-5}
+CTOL = {"GenEOS": 3e-2, "GenEOS_table": 3e-2, "EHEP": 1e-5}     # GenEOS: measured [u] across a contact 2.3e-3 (two interpolations)
 CTOL_DEFAULT = 1e-6
 GUDERLEY_FACTOR = 0.750024322   # t_user = 0.750024322 (t_Lazarus + 1)  (ramsey.py; finding guderley-time-units)
 
 
 def tasks(tier, seed):
     out = []
+    only = [x for x in os.environ.get("XPMC_ONLY_FAMILIES", "").split(",") if x]     # development only (mutant runs); never set by registered commands
     for name, (kq, kt, split) in FAMILIES.items():
+        if only and name not in only:
+            continue
         k = kq if tier == "quick" else kt
         alpha = X.alphabet(name)
         for dev in lattice.enumerate_checked(alpha, k):
@@ -109,7 +112,7 @@ def generic_cases(A, t, cnt):
     pad, xtol = 0.0, A.xtol
     if hasattr(A, "cell"):
         c = A.cell(t)
-        pad, xtol = 2.0 * c, 3.0 * c / max(abs(a), abs(b))
+        pad, xtol = 2.0 * c, 1e-13      # class C: brackets stop at 3 cells (xabs = 1.5 pad) and are widened by 2 cells
     F = lambda x: A.Fat(x, t)
     jumps = J.locate(F, a, b, n=A.scan, geometric=A.geometric, arity=A.arity, xtol=xtol, max_jumps=A.max_jumps, cnt=cnt, pad=pad)
     cases = []
@@ -263,7 +266,7 @@ def run_task(task):
     alpha = X.alphabet(name)
     cfg = lattice.full_cfg(alpha, task["dev"])
     dg = Digest()
-    res = {"evals": 0, "nontrivial": [], "violations": [], "counters": {}, "sample": None}
+    res = {"evals": 0, "nontrivial": [], "violations": [], "counters": {}, "sample": None, "worst": {}}
     C = res["counters"]
 
     def bump(k, n=1):
@@ -328,6 +331,9 @@ def run_task(task):
                     if clause.startswith(pref):
                         tl = tv
                 bump("clauses_checked")
+                if v <= tl:
+                    wk = "%s|%s" % (name, clause)
+                    res["worst"][wk] = max(res["worst"].get(wk, 0.0), float(v))
                 if not (v <= tl):
                     w = {"t": t, "wave": case["wave"]}
                     w.update(where_extra)
@@ -344,3 +350,13 @@ def run_task(task):
         A.ncall = 0
     res["digest"] = dg.hex()
     return res
+
+
+def postprocess(agg, tier):
+    """Evidence only: the largest residual that passed, per family and clause (what the tolerances are calibrated against)."""
+    worst = {}
+    for r in agg["results"]:
+        for k, v in ((r or {}).get("worst") or {}).items():
+            worst[k] = max(worst.get(k, 0.0), v)
+    return {"worst_passing_residual": {k: float("%.3g" % worst[k]) for k in sorted(worst)},
+            "tolerances": {k: TOL[k] for k in sorted(TOL)}}
